@@ -526,7 +526,7 @@ inline void s_prove_all(const std::string &name, const std::vector<F> &fs, size_
     bool top_=c.prove_all_top; c.prove_all_top=false;
     if (!alltriv && top_) {     // concolic pre-pass: an obligation that already fails at the path's own witness point needs no solver search
         for (size_t i=lo;i<hi;++i) if (!(fs[i].k==F::REL && fs[i].cmp==EQ && fs[i].a==fs[i].b)) { Violation wv; if (witness_refutes(fs[i],wv)) { wv.obligation=name+"["+std::to_string(i)+"]"; r.witness_refuted++; r.violations.push_back(wv); c.refuted_idx.insert(i); } }
-        if (!c.refuted_idx.empty()) { std::vector<F> rest; std::vector<size_t> keep; for (size_t i=lo;i<hi;++i) if (!c.refuted_idx.count(i)) rest.push_back(fs[i]); c.refuted_idx.clear(); r.obligations-=rest.size(); s_prove_all(name+" (remaining)",rest); return; } }
+        if (!c.refuted_idx.empty()) { std::vector<F> rest; std::vector<size_t> keep; for (size_t i=lo;i<hi;++i) if (!c.refuted_idx.count(i)) rest.push_back(fs[i]); c.refuted_idx.clear(); r.obligations-=rest.size(); int keep_to=solver().timeout_ms; solver().timeout_ms=std::min(keep_to,3000); /* the obligation is already violated: its other components get a short budget only */ s_prove_all(name+" (remaining)",rest); solver().timeout_ms=keep_to; return; } }
     int full_to=solver().timeout_ms; if (hi-lo>1) solver().timeout_ms=std::min(full_to, std::max(1500, full_to/6));   // batches get a short budget, singles the full one
     QueryResult q=run_query(as,e,true); solver().timeout_ms=full_to;
     if (q.verdict=="unsat") { r.discharged+=hi-lo; return; }
